@@ -7,6 +7,9 @@
 //!        is expanded, each request's effect is undone by restoring the public state fields, the
 //!        store and the clock captured before it.  One ndjson row per state with compact edges
 //!        <<to, request index, ok, flag>>.  No property logic here: TLC judges.
+//!        The alphabet (like a sequence / case of the other modes) may name the policy's payment velocity
+//!        limit ("vlim", units per hourly window; absent / 0 = the default unlimited policy): the node is built
+//!        with it, so that add_invoice / add_keysend decline approvals (Ok(false)) once the window is full.
 //!   payments conc --cases FILE --out FILE [--fee U] [--pct P]
 //!        concurrency leg: for each case (prefix, a, b) the sequential outcomes a;b and b;a and one
 //!        concurrent run per (held request, lock acquisition it is held before); see `conc`.
